@@ -7,10 +7,10 @@ COQ_TARGETS = ['Props/C06.vo', 'Run/RunC06.vo']
 PROPS_MODULE = 'Props.C06'
 THEOREMS = ['compress_with_sound', 'compress_sound', 'compress_row_runs', 'compress_output_is_bytes',
             'compress_fails_iff_plain_fails', 'reader_refines_spec', 'impl_decoder_agrees_with', 'impl_decoder_agrees',
-            'font_page_survives', 'count_length_no_overflow', 'impl_decoder_agrees_refuted_before_fix']
+            'compressed_load_positions', 'count_length_no_overflow', 'impl_decoder_agrees_refuted_before_fix']
 SWEEP_LEMMAS = ['XBinProofs.header_sweep (256 run bytes: the reader\'s mask split of Gen/XBinConst.v against the specification\'s bit fields)',
                 'XBinProofs.hdr_sweep (4 run types x 64 counts: the writer\'s run byte against the specification\'s bit fields)',
-                'XBinProofs.page_bit_sweep (256 attribute bytes x 3 ice modes: bit 3 decodes to the font page in 512-character mode)']
+                'XBinProofs.enc_mask_sweep (256 attribute bytes: encode_attr stays a byte with and without the page bit)']
 TRUSTED = ['Coq 8.16.1 kernel + vm_compute (finite sweeps, model evaluation); no axioms (Print Assumptions: closed)',
            'translator/gen_xbin.py + vlib/rustsrc.py: tokenizer, template matcher for encode_attr / decode_char, constant extraction',
            'hand transcription of compress_backtrack / count_length / read_data_compressed / read_data_uncompressed into Model/XBin.v, '
@@ -283,6 +283,35 @@ def compare(b, r, m):
     if o['u']['cells'] != picture(mo['tu'], w, h): return 'picture loaded from the uncompressed file differs from the model reader'
     return None
 
+def par_model(ctx, exprs, groups=14, timeout=1500):
+    """ctx.model shards by the number of expressions (50 per coqc); a C06 case is a whole buffer, so split the list
+    ourselves and evaluate the groups concurrently (work-around inside the plug-in, the driver is untouched)"""
+    import copy, threading, resource
+    # printing an observation of ~10^5 numbers overflows coqc's default 8 MiB stack: raise the soft limit for our children
+    soft, hard = resource.getrlimit(resource.RLIMIT_STACK)
+    want = 1 << 30
+    if hard != resource.RLIM_INFINITY: want = min(want, hard)
+    if soft != resource.RLIM_INFINITY and soft < want:
+        resource.setrlimit(resource.RLIMIT_STACK, (want, hard))
+    n = len(exprs)
+    groups = max(1, min(groups, n // 4 or 1))
+    # balance by expression size
+    order = sorted(range(n), key=lambda i: -len(exprs[i]))
+    buckets = [[] for _ in range(groups)]
+    for k, i in enumerate(order): buckets[k % groups].append(i)
+    out = [None] * n
+    errs = []
+    def work(g, idx):
+        c = copy.copy(ctx); c.pid = '%s_g%d' % (ID, g)
+        r = c.model(IMPORTS, [exprs[i] for i in idx], shards=1, timeout=timeout)
+        for i, v in zip(idx, r): out[i] = v
+        errs.extend(getattr(c, 'model_errors', []))
+    th = [threading.Thread(target=work, args=(g, b)) for g, b in enumerate(buckets) if b]
+    for t in th: t.start()
+    for t in th: t.join()
+    ctx.model_errors = errs
+    return out
+
 def leaf_cases():
     cases, exprs = [], []
     for ice in range(3):
@@ -307,7 +336,7 @@ def correspondence(ctx):
     lc, le = leaf_cases()
     cases = [case_str(b) for b in bufs] + lc
     impl = ctx.impl(cases, per_case_timeout=60)
-    model = ctx.model(IMPORTS, [model_expr(b) for b in bufs] + le, timeout=1500)
+    model = par_model(ctx, [model_expr(b) for b in bufs] + le)
     dis = []
     for i, b in enumerate(bufs):
         d = compare(b, impl[i], model[i])
